@@ -97,11 +97,22 @@ def control_envelopes():
     return None
 
 
+def control_carrier_mechanism():
+    """Carrier.tla with the wrap-around mechanism (Promote = FALSE): TLC must refute MechanismIsExact."""
+    cfg = tlc._cfg_text(constants={'NTokens': 1, 'Levels': set(__import__('harness.carrier', fromlist=['LEVELS']).LEVELS), 'Promote': False}, invariants=['MechanismIsExact'])
+    try:
+        res = tlc.run('Carrier', cfg, tag='selftest-carrier', workers=1, dump=False)
+        tlc.cleanup(res.workdir)
+    except tlc.TlcError as e:
+        return None if 'MechanismIsExact' in str(e) and 'violated' in str(e) else 'TLC failed for another reason: %s' % str(e)[-300:]
+    return 'TLC accepts the wrap-around mechanism'
+
+
 def main():
     import os
     os.environ['VERIF_NO_EVIDENCE'] = '1'
     failed = 0
-    for name, f in (('trace validation', control_trace), ('observation events', control_obs), ('state replay', control_replay), ('envelope replays', control_envelopes)):
+    for name, f in (('trace validation', control_trace), ('observation events', control_obs), ('state replay', control_replay), ('envelope replays', control_envelopes), ('wrap-around mechanism', control_carrier_mechanism)):
         msg = f()
         print('%-20s %s' % (name, 'ok: corruptions rejected' if msg is None else 'BROKEN: ' + msg))
         failed += msg is not None
